@@ -92,6 +92,8 @@ def key_text(path):
 
 
 def val_text(v):
+    if isinstance(v, EnvRef):
+        return "!Env " + v.var              # the value of an override may carry a tag too
     return yaml.safe_dump(v, default_flow_style=True).strip().replace("\n...", "").replace("\n", " ")
 
 
@@ -177,7 +179,7 @@ def to_spec_case(case):
         elif "chars" in s:
             out["sets"].append({"chars": s["chars"], "val": tag(s["val"])})
         else:
-            out["sets"].append({"path": s["path"], "val": tag(s["val"])})
+            out["sets"].append({"path": s["path"], "val": tag(resolve(s["val"], None))})
     return out
 
 
@@ -285,7 +287,7 @@ def rand_cases(rnd: random.Random, n: int):
         path = rnd.choice([["component", "a"], ["component", "n", "a"], ["component", "b.c"], ["logging", "loggers", "p.q", "level"],
                            ["max_threads"], ["services", "one", "component", "a"], ["component", "a", "deep"],
                            ["services", "two", "component", "n", "b.c"], ["component", "n"], ["services", "default", "component", "type"]])
-        val = rnd.choice([5, "str", None, [1, 2], {"k": 1}, True, 1.5]) if path[-1] != "type" else rnd.choice([T1, T2])
+        val = rnd.choice([5, "str", None, [1, 2], {"k": 1}, True, 1.5, EnvRef("VERIF_E1"), EnvRef("VERIF_E3")]) if path[-1] != "type" else rnd.choice([T1, T2])
         if isinstance(val, float):
             val = 7
         return {"path": path, "val": val, "text": key_text(path) + "=" + val_text(val)}
